@@ -170,8 +170,11 @@ def line_protocol_rules(chk):
         if need not in params:
             raise Undecided("line_protocol has no parameter %r" % need, fi.node)
 
+    pkg = mod.name.rpartition(".")[0]
+
     def inline(f, ct):
-        return f.module is mod and f.cls is None
+        # helpers of the module, also when they live in a sibling module of the package and are imported back
+        return f.cls is None and not f.is_async and (f.module is mod or f.module.name.rpartition(".")[0] == pkg)
 
     key_names, value_names = set(), set()
     for f in [fi] + [g for g in prog.functions.values() if g.module is mod and g.cls is None]:
